@@ -50,7 +50,7 @@ def lcd_frames(events):
 
 
 def run_family(ctx, thorough):
-    pairs = PAIRS if thorough else PAIRS[:3]
+    pairs = PAIRS if thorough else PAIRS[:2]
     cases = [(p, name, src) for p in pairs for name, src in variants(*p).items()]
     ts = fw.transpile_many([c[2] for c in cases])
     jobs, idx = [], []
